@@ -157,11 +157,72 @@ def p_index(e, _a=None):
     e.explore(prog, 'index')
 
 
-PROGRAMS = [('o_templates', None), ('p_transition_type', 3), ('p_transition_type', 4), ('p_index', None)]
+def p_num_layers(e, _a=None):
+    """set_column_num_layers counts exactly the layers whose bottom lies below the surface, and
+    column_surface_layer is then the column's top block layer."""
+    from contracts.c04 import make_geo, make_col, NL
+    def prog(e):
+        g = make_geo(e, 0)
+        col = make_col(e, g, '  a', '')
+        s = col.fields['_surface']
+        e.call(e.get_function('mulgrids.mulgrid.set_column_num_layers'), [g, col])
+        lays = g.fields['layerlist']
+        want = sum([z3.If(l.fields['bottom'] < s, 1, 0) for l in lays[1:]])
+        e.prove(to_int(col.fields['num_layers']) == want, 'post:num_layers_counts_layers_with_bottom_below_surface')
+        if isinstance(col.fields['num_layers'], int) and col.fields['num_layers'] > 0:
+            sl = e.call(e.get_function('mulgrids.mulgrid.column_surface_layer'), [g, col])
+            e.prove(z3.And(sl.fields['bottom'] < s, z3.Or(s <= sl.fields['top'], z3.BoolVal(sl is lays[1]))), 'post:surface_layer_is_the_top_block_layer')
+    e.explore(prog, 'num_layers')
+
+
+def p_add_layers(e, arg):
+    """add_layers (real method, real name generators) never gives a layer the surface layer's name
+    and creates exactly the requested number of distinctly named layers (layer counts crossing
+    the position at which the generated name collides with the surface layer name)."""
+    convention, n = arg
+    def prog(e):
+        m = e.load_module('mulgrids').globals
+        g = Obj(m['mulgrid'])
+        g.fields.update(_convention=convention, _atmosphere_type=2, layerlist=[], layer={}, columnlist=[], column={})
+        e.call(e.get_function('mulgrids.mulgrid.set_secondary_variables'), [g])
+        th = [e.sym_real('h%d' % k, 0) for k in range(n)]
+        try:
+            e.call(e.get_function('mulgrids.mulgrid.add_layers'), [g, th, 0])
+        except PyExc as ex:
+            e.prove(ex.cls == 'NamingConventionError' and n > {0: 99, 1: 18278, 2: 701, 3: 701}[convention], 'raises:add_layers_only_NamingConventionError_beyond_capacity[conv%d,n=%d]' % (convention, n))
+            return
+        names = [l.fields['name'] for l in g.fields['layerlist']]
+        e.prove(len(names) == n + 1 and len(set(names)) == n + 1 and set(g.fields['layer']) == set(names), 'post:add_layers_creates_n_distinct_layers_plus_surface[conv%d,n=%d]' % (convention, n))
+    e.explore(prog, 'add_layers')
+
+
+PROGRAMS = [('p_num_layers', None)] + [('p_add_layers', a) for a in ((2, 45), (2, 46), (2, 50), (0, 12), (1, 30), (3, 50))] + [('o_templates', None), ('p_transition_type', 3), ('p_transition_type', 4), ('p_index', None)]
 
 
 def replay(obname, model, result):
     m = model or {}
+    if result['program'] == 'p_add_layers':
+        conv, n = result['arg']
+        return ("from mulgrids import *\n"
+                "g = mulgrid(convention=%d); n = %d\n"
+                "try:\n"
+                "    g.add_layers([1.] * n, 0)\n"
+                "    names = [l.name for l in g.layerlist]\n"
+                "    ok = len(names) == n + 1 and len(set(names)) == n + 1\n"
+                "    detail = '%%d layers requested, %%d layers (%%d distinct names) created' %% (n, len(names) - 1, len(set(names)) - 1)\n"
+                "except NamingConventionError as ex:\n"
+                "    ok, detail = n > {0: 99, 1: 18278, 2: 701, 3: 701}[%d], 'NamingConventionError'\n") % (conv, n, conv)
+    if result['program'] == 'p_num_layers' and 'z0' in m:
+        def fl(v):
+            return float(int(v['num'])) / float(int(v['den'])) if isinstance(v, dict) else float(v)
+        z0, b = fl(m['z0']), [fl(m['bottom%d' % i]) for i in (1, 2, 3)]
+        return ("from mulgrids import *\n"
+                "z0, b, s = %r, %r, %r\n"
+                "g = mulgrid().rectangular([10.], [10.], [z0 - b[0], b[0] - b[1], b[1] - b[2]], origin=[0., 0., z0])\n"
+                "c = g.columnlist[0]; c.surface = s; g.set_column_num_layers(c)\n"
+                "want = len([x for x in b if x < s])\n"
+                "ok = c.num_layers == want\n"
+                "detail = 'surface %%r, layer bottoms %%r: num_layers %%r, expected %%r' %% (s, b, c.num_layers, want)\n") % (z0, b, fl(m['surface']))
     if result['program'] == 'p_index' and 'nn' in m:
         return ("from mulgrids import column, node\nimport numpy as np\n"
                 "nn, i, d, j = %d, %d, %d, %d\n"
